@@ -105,7 +105,7 @@ def run(ck, writers=('encap', 'encap_frag', 'encap_ext'), pid_rules='C06', floor
             end = row['start'] + row['len']
             ck.obligations += 2
             if not W.store.entails(le(end, g[1] + 2)):
-                in_loop_region = wname == 'encap_ext' and any(x in a.I.loop_atoms for x in end.atoms())
+                in_loop_region = wname == 'encap_ext' and a.I._loop_dependent(W, le(end, g[1] + 2))
                 if in_loop_region:
                     ck.declined_instances += 1
                     ck.declined.append({'fn': wname, 'site': site_str(row['site']), 'obligation': f"write end {end.pretty()} <= packet length", 'reason': 'offset accumulated in the extension loops'})
